@@ -2,7 +2,9 @@
 package main
 
 import (
+	"encoding/json"
 	"fmt"
+	"io/ioutil"
 	"math/rand"
 	"os"
 	"runtime"
@@ -191,6 +193,10 @@ func main() {
 			"sequence, tree) up to renaming of proposals; non-trivial = some proposal arrived before its parent, or a fork, a root move, an applied rollback or a vote quorum occurred")
 	sn.InitLogs()
 	mat := newMaterial()
+	if r.Replay != "" {
+		replay(r, mat)
+		return
+	}
 	co := &collector{r: r, mat: mat, hits: map[string][]hit{}}
 	t0 := time.Now() // progress output only
 
@@ -254,6 +260,40 @@ func main() {
 	r.Assume("a CommitQC equal to the current root is accepted although it is not the third ancestor of HighQC: InitQCTree starts with CommitQC = Root = HighQC and the root is the last committed proposal")
 	r.Assume("HighQC left pointing above / beside the root after a commit is counted (info.highqc-outside-tree-after-commit), not judged: the statement does not constrain it")
 	r.Assume("vote quorum in the model: two distinct validators other than the node whose vote call returned nil (n = 4); earlier certification is C14's subject and is not judged here")
+	sn.CleanupScratch()
+	r.Finish()
+}
+
+// replay re-runs the minimal history of a replay file and reports what it shows.
+func replay(r *ev.Run, mat *material) {
+	buf, err := ioutil.ReadFile(r.Replay)
+	var doc struct {
+		Signature string `json:"signature"`
+		Witness   struct {
+			Case *Case `json:"case"`
+		} `json:"witness"`
+	}
+	if err == nil {
+		err = json.Unmarshal(buf, &doc)
+	}
+	if err != nil || doc.Witness.Case == nil {
+		r.Inconclusive(fmt.Sprintf("cannot read replay file %s: %v", r.Replay, err))
+		r.Finish()
+	}
+	c := doc.Witness.Case
+	res := runCase(mat, c, true)
+	for _, l := range res.Trace {
+		fmt.Fprintln(os.Stderr, l)
+	}
+	r.Case(shapeOf(c), true)
+	if res.Err != "" {
+		r.Inconclusive("harness error: " + res.Err)
+	} else if res.F != nil {
+		fmt.Fprintf(os.Stderr, "replay: %s at call %d: %s\n", res.F.Sig, res.F.Step, res.F.Detail)
+		r.Violation(res.F.Sig, res.F.Detail, map[string]interface{}{"case": c, "trace": res.Trace, "violated_at_call": res.F.Step})
+	} else {
+		fmt.Fprintf(os.Stderr, "replay: the history runs clean (recorded signature: %s)\n", doc.Signature)
+	}
 	sn.CleanupScratch()
 	r.Finish()
 }
